@@ -1518,7 +1518,10 @@ impl OneSideHashJoiner {
     ) -> Result<()> {
         // Merge the incoming batch with the existing input buffer:
         self.input_buffer = concat_batches(&batch.schema(), [&self.input_buffer, batch])?;
-        // Resize the hashes buffer to the number of rows in the incoming batch:
+        // Reset the hashes buffer to one zeroed slot per row of the incoming batch
+        // (`create_hashes` leaves the slots of NULL keys untouched, so stale values
+        // from the previous probe must not survive):
+        self.hashes_buffer.clear();
         self.hashes_buffer.resize(batch.num_rows(), 0);
         // Get allocation_info before adding the item
         // Update the hashmap with the join key values and hashes of the incoming batch:
